@@ -152,7 +152,7 @@ func runC03Case(run *runner, idx int64, cc *checkCase) string {
 					fk = faultKinds[int(k+idx+int64(qi)+2)%len(faultKinds)]
 				}
 				plan := &faultPlan{FailAt: k, Persistent: persistent, Err: fk.err}
-				d, res := engineCheckPlan(env, st, eng, q, 0, plan, 10*time.Second)
+				d, res := engineCheckPlan(env, st, eng, q, 0, plan, 2*time.Second)
 				run.eval(1)
 				if st.faulted == 0 {
 					run.count("fault_position_not_reached", 1)
